@@ -178,7 +178,7 @@ func C03(ctx *Ctx) {
 				}
 			}
 			wantK := ref.Len - flag
-			refusedByGuard := !r.Returned && len(r.panicsIn(e.Fn)) > 0 && len(r.Helpers) == 0
+			refusedByGuard := len(r.refusals()) > 0
 			if !r.Returned && !refusedByGuard {
 				lenErr = fmt.Sprintf("cell %s: no return reachable although no width guard fired", r.Cell)
 				continue
